@@ -3,7 +3,7 @@
 (* with Gen_FimStore.cfg, generation of behaviours that are replayed into the real backends.                  *)
 EXTENDS FimStore, Json
 
-CONSTANTS GIDS, NIDS, CLS, RELS, MaxDepth, WithQueries, WithMerge, Profile
+CONSTANTS GIDS, NIDS, CLS, RELS, MaxDepth, WithQueries, WithMerge, Profile, Seed
 
 VARIABLES st, lastop, path, chg
 vars == <<st, lastop, path, chg>>
@@ -88,7 +88,22 @@ Ops(S) == {o \in (IF Profile = "graphs" THEN GraphMutators ELSE Mutators) : Lega
           \cup (IF WithQueries THEN (IF Profile = "graphs" THEN GraphObservers ELSE Observers) ELSE {})
           \cup {[op |-> "FindMatching", g |-> g, h |-> h] : <<g, h>> \in {gh \in GIDS \X GIDS : KeysOf(S, gh[2]) # {}}}
 
-Init == st = EmptyStore /\ lastop = [op |-> "Init"] /\ path = <<>> /\ chg = FALSE
+\* Seeded initial stores: every operation of the alphabet is then explored in a populated store, not only near the
+\* empty one.  The seed is itself a sequence of public operations (so it is replayed like any other prefix).
+N(g, n, c, pp)     == [op |-> "AddNode", g |-> g, n |-> n, cls |-> c, props |-> pp]
+L(g, a, b, r, pp)  == [op |-> "AddLink", g |-> g, a |-> a, b |-> b, rel |-> r, props |-> pp]
+SeedOps ==
+    CASE Seed = "empty" -> <<>>
+      [] Seed = "pair"  -> << N("g1", "a", "K1", [p |-> "s:v1", Name |-> "s:v1", Type |-> "s:t1"]), N("g1", "b", "K2", <<>>),
+                              L("g1", "a", "b", "r1", [p |-> "s:v1"]), N("g2", "a", "K1", [p |-> "s:v2"]) >>
+      [] Seed = "tri"   -> << N("g1", "a", "K1", [Name |-> "s:v1"]), N("g1", "b", "K2", [p |-> "s:v1"]),
+                              L("g1", "a", "b", "r1", <<>>), L("g1", "a", "a", "r2", <<>>),
+                              N("g2", "a", "K2", [p |-> "s:v2", Name |-> "s:v2"]), N("g2", "b", "K1", <<>>),
+                              L("g2", "a", "b", "r2", [p |-> "s:v2"]) >>
+RECURSIVE RunAll(_, _, _)
+RunAll(S, ops, i) == IF i > Len(ops) THEN S ELSE RunAll(Apply(S, ops[i]).st, ops, i + 1)
+
+Init == st = RunAll(EmptyStore, SeedOps, 1) /\ lastop = [op |-> "Init"] /\ path = SeedOps /\ chg = FALSE
 
 Next == \E o \in Ops(st) :
           LET r == Apply(st, o) IN
